@@ -77,7 +77,22 @@ def nt_name(style, k):
     raise ValueError(style)
 
 
-def build(G, srname, names="str", pre=None, late=0):
+EARLY_OPS = {
+    "separate_start": lambda g: g.separate_start(),
+    "separate_terminals": lambda g: g.separate_terminals(),
+    "binarize": lambda g: g.binarize(),
+    "unaryremove": lambda g: g.unaryremove(),
+    "renumber": lambda g: g.renumber(),
+    "null_weight": lambda g: g.null_weight(),
+    "nullaryremove_notrim": lambda g: g.nullaryremove(trim=False),
+    "unarycycleremove_notrim": lambda g: g.unarycycleremove(trim=False),
+    "derivative": lambda g: g.derivative(sorted(g.V, key=repr)[0]),
+    "add_EOS": lambda g: add_EOS(g),
+    "has_unary_cycle": lambda g: g.has_unary_cycle(),
+}
+
+
+def build(G, srname, names="str", pre=None, late=0, early=None):
     """Rebuild a CFG from its projection."""
     R = SR[srname]
     V = {unt(x) for x in G["V"]}
@@ -93,10 +108,14 @@ def build(G, srname, names="str", pre=None, late=0):
     for r in G["rules"][: len(G["rules"]) - late]:
         g.add(dec_w(R, r["w"]), sym(r["h"]), *[sym(y) for y in r["b"]])
     if late:
-        # the last `late` rules are added AFTER total weights were computed once on the object: later totals
-        # must be those of the whole grammar (nothing computed earlier may be silently reused)
+        # the last `late` rules are added AFTER the object was already used once (total weights, and the cache-free
+        # transformations listed in `early`): later answers must be those of the whole grammar - nothing computed
+        # earlier may be silently reused.  (Only operations that keep no cache on the unchanged tree are used here;
+        # trim / cnf / rhs / prefix_grammar are documented-by-code caches and would be stale by design.)
         g.agenda()
         g.treesum()
+        for name in early or ():
+            EARLY_OPS[name](g)
         for r in G["rules"][len(G["rules"]) - late:]:
             g.add(dec_w(R, r["w"]), sym(r["h"]), *[sym(y) for y in r["b"]])
     return warm_cfg(g, pre)
@@ -468,7 +487,18 @@ def f_pnextrl(a):
             "dist": [[tname(t), enc_w(us.Float, float(p[t]))] for t in toks]}
 
 
-FUNCS = {"pnextrl": f_pnextrl, "pnextseq": f_pnextseq, "mapbool": f_mapbool, "pnext": f_pnext, "ntw": f_ntw, "ntw_vs_parser": f_ntw_vs_parser, "lmcall": f_lmcall,"parse": f_parse, "prefix": f_prefix, "prefixgrammar": f_prefixgrammar, "derivative": f_derivative,
+def f_treesumrl(a):
+    """agenda() on a float-weighted proper right-linear grammar (possibly converging very slowly)."""
+    G = a["G"]
+    g = CFG(R=us.Float, S=G["S"], V={unt(x) for x in G["V"]})
+    for r in G["rules"]:
+        g.add(float(Fraction(*r["w"])), r["h"], *[unt(y) if y in G["V"] else y for y in r["b"]])
+    ch = g.agenda()
+    nts = sorted({r["h"] for r in G["rules"]} | {G["S"]})
+    return {"op": "treesumrl", "sr": "Rat", "G": G, "chart": [[x, enc_w(us.Float, float(ch[x]))] for x in nts]}
+
+
+FUNCS = {"treesumrl": f_treesumrl, "pnextrl": f_pnextrl, "pnextseq": f_pnextseq, "mapbool": f_mapbool, "pnext": f_pnext, "ntw": f_ntw, "ntw_vs_parser": f_ntw_vs_parser, "lmcall": f_lmcall,"parse": f_parse, "prefix": f_prefix, "prefixgrammar": f_prefixgrammar, "derivative": f_derivative,
          "transform": f_transform, "treesum": f_treesum, "lang": f_lang, "mask": f_mask, "addeos": f_addeos,
          "normalize": f_normalize, "derivcall": f_derivcall, "explen": f_explen}
 
